@@ -163,9 +163,9 @@ class DyadCarrier(object):
         vsub = [vi[subscript[1]] for vi in self.v]
 
         if is_uni_slice or is_np_slice:
-            res = 0
+            res = np.zeros(np.shape(usample * vsample), dtype=self.dtype)
             for (ui, vi) in zip(usub, vsub):
-                res += ui*vi
+                res = res + ui*vi
 
             return res
         else:
